@@ -96,11 +96,13 @@ class Session:
         self.expected_exceptions = tuple(expected_exceptions)
         mod = harness.__module__
         self.vm = VM(encode=tuple(encode) + (mod,), use_solver=use_solver)
+        self.setup = setup
         if setup:
             setup(self.vm)
         self.queries = []  # dicts
         self.build_s = 0.0
         self.query_timeout_s = query_timeout_s
+        self.sat_part = {}
         self.jobs = jobs
         self.cross_check = cross_check
         self.native_ctx = native_ctx
@@ -174,6 +176,115 @@ class Session:
                 os._exit(0)
         os.close(w)
         return pid, r
+
+    def solve_portfolio(self, first, checks, parts, grace_s=20):
+        """Engine B: the combined query races against the individual disjuncts of every check (one query per
+        obligation instance / per step of the deadlock condition).  unsat of the combined query settles everything;
+        a sat disjunct settles its check as violated (finding a witness of one small disjunct is often orders of
+        magnitude faster than finding one for the big disjunction).  Returns {label: sat|unsat|unknown|skipped}."""
+        import signal
+        COMB = "combined:any obligation violated?"
+        self.sat_part = {}
+        subs = []
+        for label, cond in checks:
+            ps = parts.get(label) or [cond]
+            if len(ps) > 48:      # keep the number of processes bounded
+                n = (len(ps) + 47) // 48
+                ps = [OR(*ps[i:i + n]) for i in range(0, len(ps), n)]
+            for i, pc in enumerate(ps):
+                if pc is not FALSE:
+                    subs.append((label, i, pc))
+        verdicts = {}
+        pending = [("first", l, None, c) for l, c in first] + [("sub", l, i, c) for l, i, c in subs]
+        running = {}
+        jobs = max(2, self.jobs)
+        sub_verdicts = {}
+        first_sat_at = None
+        comb_done = False
+        while pending or running:
+            while pending and len(running) < jobs:
+                kind, label, i, cond = pending.pop(0)
+                pid, fd = self._fork_check(cond, self.query_timeout_s)
+                running[pid] = (kind, label, i, cond, fd, time.time())
+            if first_sat_at is not None and time.time() - first_sat_at > grace_s:
+                break
+            try:
+                pid, status = os.waitpid(-1, os.WNOHANG) if first_sat_at is not None else os.wait()
+            except ChildProcessError:
+                break
+            if pid == 0:
+                time.sleep(0.2)
+                continue
+            if pid not in running:
+                continue
+            kind, label, i, cond, fd, t0 = running.pop(pid)
+            try:
+                data = os.read(fd, 64).decode().strip()
+            finally:
+                os.close(fd)
+            v = data if data in ("sat", "unsat") else "unknown"
+            self.queries.append({"label": label if kind == "first" else f"{label} [part {i}]", "verdict": v,
+                                 "seconds": round(time.time() - t0, 3)})
+            if kind == "first":
+                verdicts[label] = v
+                if label == COMB:
+                    comb_done = True
+                    if v == "unsat":
+                        pending = [p for p in pending if p[0] == "first"]
+                        for q, rec in list(running.items()):
+                            if rec[0] == "sub":
+                                self._kill(q, rec[4])
+                                del running[q]
+            else:
+                sub_verdicts.setdefault(label, {})[i] = v
+                if v == "sat" and label not in self.sat_part:
+                    self.sat_part[label] = cond
+                    if first_sat_at is None:
+                        first_sat_at = time.time()
+                        # the combined query is no longer needed
+                        pending = [p for p in pending if not (p[0] == "first" and p[1] == COMB)]
+                        for q, rec in list(running.items()):
+                            if rec[0] == "first" and rec[1] == COMB:
+                                self._kill(q, rec[4])
+                                del running[q]
+                                verdicts[COMB] = "sat"
+        for q, rec in list(running.items()):
+            self._kill(q, rec[4])
+        if self.sat_part:
+            verdicts[COMB] = "sat"
+        if verdicts.get(COMB) == "unsat":
+            return verdicts
+        nparts = {}
+        for label, i, c in subs:
+            nparts[label] = nparts.get(label, 0) + 1
+        for label, cond in checks:
+            sv = sub_verdicts.get(label, {})
+            if label in self.sat_part:
+                verdicts[label] = "sat"
+            elif len(sv) == nparts.get(label, 0) and all(x == "unsat" for x in sv.values()):
+                verdicts[label] = "unsat"
+            elif self.sat_part:
+                verdicts[label] = "skipped"
+            # else: left out - decided individually by the caller
+        for l, c in first:
+            verdicts.setdefault(l, "unknown")
+        return verdicts
+
+    @staticmethod
+    def _kill(pid, fd):
+        import signal
+        try:
+            os.kill(pid, signal.SIGKILL)
+        except OSError:
+            pass
+        try:
+            os.waitpid(pid, 0)
+        except OSError:
+            pass
+        try:
+            os.close(fd)
+        except OSError:
+            pass
 
     def solve_many(self, items):
         """items: [(label, cond B)] -> {label: verdict}"""
@@ -273,10 +384,12 @@ class Session:
         for (tn, msg), (gs, exc) in raised_groups.items():
             lab = add(f"no-uncaught:{tn}:{msg[:60]}", OR(*gs), "check")
             exc_of[lab] = exc
+        parts = {}      # label -> disjuncts of its condition (Engine B: decided as a portfolio, see solve_portfolio)
         if self.sched is not None:
             dl = [g for k, g in self.sched.deadlocks]
             if dl:
-                add("check:no deadlock (some thread unfinished, nobody enabled, no timed waiter)", OR(*dl), "check")
+                lab = add("check:no deadlock (some thread unfinished, nobody enabled, no timed waiter)", OR(*dl), "check")
+                parts[lab] = dl
             if self.sched.enabled_at_end is not FALSE:
                 add("unwinding:no thread is still enabled at the step bound", self.sched.enabled_at_end, "unsat-required")
             allfin = AND(*[NOT(st.guard) for st in self.finals if st.status == "parked" and st.park[0] != "forever"])
@@ -292,7 +405,9 @@ class Session:
             cond = OR(*gs)
             if exclude is not None:
                 cond = AND(cond, exclude(label))
-            add(f"check:{label}", cond, "check")
+            lab = add(f"check:{label}", cond, "check")
+            if exclude is None:
+                parts[lab] = gs
         # one combined query first: if no obligation at all is violated, a single unsat settles every check
         checks = [(label, cond) for label, cond in items if kinds[label] in ("check", "unsat-required")]
         pre = {}
@@ -300,14 +415,19 @@ class Session:
             comb = OR(*[c for _, c in checks])
             first = [("combined:any obligation violated?", comb)] + [(l, c) for l, c in items
                                                                      if kinds[l] == "sat-required"]
-            pre = self.solve_many(first)
+            if self.steps:
+                pre = self.solve_portfolio(first, checks, parts)
+            else:
+                pre = self.solve_many(first)
             if pre.get("combined:any obligation violated?") == "unsat":
                 for label, _ in checks:
                     pre[label] = "unsat"
                 self.combined_unsat = True
                 verdicts = pre
+            elif self.steps and any(v == "sat" for l, v in pre.items() if kinds.get(l) == "check"):
+                verdicts = pre      # the portfolio found a violation; undecided siblings are marked "skipped"
             else:
-                rest = [(l, c) for l, c in items if l not in pre]
+                rest = [(l, c) for l, c in items if l not in pre or pre[l] == "skipped"]
                 verdicts = dict(pre)
                 verdicts.update(self.solve_many(rest))
         else:
@@ -327,13 +447,17 @@ class Session:
                         self.samples.append({"witness": "inputs satisfying the assumptions",
                                              "inputs": _short(self.replay_of(m))})
             elif k == "unsat-required":
+                if v == "skipped":
+                    continue      # a violation was found and is reported; this side condition was not decided
                 if v != "unsat":
                     raise Inconclusive(f"{self.name}: {label} is {v}")
             else:
+                if v == "skipped":
+                    continue
                 if v == "unknown":
                     raise Inconclusive(f"{self.name}: query {label!r} undecided")
                 if v == "sat":
-                    m = self._model(cond)
+                    m = self._model(self.sat_part.get(label, cond))
                     if m is None:
                         raise Inconclusive(f"{self.name}: no model for sat query {label!r}")
                     lab = label[6:] if label.startswith("check:") else label
@@ -350,7 +474,7 @@ class Session:
         schedule and clock readings fixed; returns the labels that fail on that run"""
         sess = Session(self.name + " (replay)", self.harness, self.args, encode=tuple(e for e in self.vm.encode
                                                                                      if e != self.harness.__module__),
-                       steps=self.steps, racy=self.racy, jobs=1)
+                       steps=self.steps, racy=self.racy, jobs=1, setup=self.setup)
         sess.vm.loop_bound = self.vm.loop_bound
         sess.vm.forced = dict(replay)
         try:
